@@ -62,7 +62,7 @@ def file_disk_bytes(f):
     for piece in pieces:
         buf = io.BytesIO()
         with gzip.GzipFile(fileobj=buf, mode='wb', compresslevel=gz.get('level', 6),
-                           mtime=0) as g:
+                           mtime=gz.get('mtime', 0)) as g:
             g.write(piece)
         out += buf.getvalue()
     return out
